@@ -413,16 +413,20 @@ def _module_bound_names(ctx):
 def n3(ctx, res):
     po = ctx.func("_parse_object")
     # the value passed as the class name must go through a guard after _title_format
-    calls = [n for n in walk_own(po.body) if isinstance(n, ast.Call) and dotted(n.func) == "ObjectMeta" and n.args]
+    from .norm import view
+    calls = [n for n in walk_own(view(po, ctx.prog).body) if isinstance(n, ast.Call) and dotted(n.func) == "ObjectMeta" and n.args]
     if not calls:
         raise AnalysisError("_parse_object no longer builds the class with ObjectMeta(title, ...)")
     name_arg = calls[0].args[0]
-    src = norm(po.node)
     guard_funcs = [g for g in ctx.prog.all_funcs() if g.module is po.module and g.name in ("_class_name", "_parse_class_name", "_safe_title")]
     guarded = False
     detail = {}
-    if isinstance(name_arg, ast.Name):
-        from .paths import resolve_local
+    for g in guard_funcs:
+        # fully normalised view: the name argument IS the guard call (or a local bound to one)
+        if has(f"{g.name}(MV__)", name_arg):
+            guarded = True
+            detail["guard"] = g.name
+    if not guarded and isinstance(name_arg, ast.Name):
         binds = ctx.inf.bindings(po).get(name_arg.id, [])
         exprs = [b[1] for b in binds if b[0] == "assign"]
         for e in exprs:
@@ -430,7 +434,8 @@ def n3(ctx, res):
                 if has(f"{g.name}(MV__)", e):
                     guarded = True
                     detail["guard"] = g.name
-    res.check(guarded, po, "title = _title_format(title); ObjectMeta(title, ...)", detail=detail,
+    unguarded_format = has("_title_format(MV__)", name_arg) and not guarded
+    res.judge(True if guarded else (False if (unguarded_format or not guard_funcs) else None), po, "title = _title_format(title); ObjectMeta(title, ...)", detail=detail,
               reason="between formatting the title and creating the class there is no step that repairs or rejects the empty "
                      "string ('1' -> ''), keywords ('none' -> None) and names the generated module binds itself ('string' -> String)")
     if guarded:
